@@ -84,6 +84,7 @@ class Session(object):
         except vloop.Deadlock as e:
             return ('deadlock', str(e))
         except Exception as e:  # pylint: disable=broad-except
+            self.last_exc = e
             return ('exc', type(e).__name__, str(e)[:300])
 
     def op(self, op):
@@ -132,13 +133,22 @@ class Session(object):
         log = self.cb_log
         sync = self.twin == 'sync'
 
+        dev = self.dev
+        nested = self.nested = []
+
         def cb(path, n, total):
             log.append((path, n, total))
             if kind == 'raise':
                 raise RuntimeError('callback failure')
+            if kind == 'reenter':                  # a callback that queries the device (another sync transaction) while the transfer is running
+                nested.append(tuple(dev.stat('/f')))
 
         async def acb(path, n, total):
-            cb(path, n, total)
+            log.append((path, n, total))
+            if kind == 'raise':
+                raise RuntimeError('callback failure')
+            if kind == 'reenter':
+                nested.append(tuple(await dev.stat('/f')))
         return cb if sync else acb
 
     def _pull(self, device_path, dest, kw):
